@@ -161,7 +161,7 @@ def known_finding_lines(check):
         with open(os.path.join(VERIF, w)) as fh:
             rep = json.load(fh)
         verdict = check.examine(rep['case'])
-        syms = {s.split(':')[0] for s, _ in verdict.violations}
+        syms = {s for s, _ in verdict.violations}
         expected = set(f.get('symptoms', {}).get(check.id, []))
         if verdict.violations and (not expected or syms & expected):
             out.append(f'KNOWN-FINDING: property={check.id} {f["id"]} {f["what"]} '
